@@ -44,7 +44,7 @@ TRASH = "TrashNode"
 def generate(rng, tier):
     while True:
         pool = rng.choice(["int", "str", "str", "adv"])
-        a = F.gen_fa(rng, max_states=4, pool=pool)
+        a = F.gen_fa(rng, max_states=(5 if tier == "thorough" and rng.random() < 0.25 else 4), pool=pool)
         b = F.gen_fa(rng, max_states=4, pool=rng.choice([pool, "int", "str"]))
         for x in (a, b):   # union/concatenate/kleene_star go through regex text: plain string symbols
             x["symvals"] = F.PLAIN_SYMS[:len(x["symvals"])]
